@@ -18,8 +18,8 @@
    [no_braceb us] = no request part is spelled "{..}" (F-C13i);
    [kind_consistentb ds] = no two declarations reach the same trie node once
    as a host label and once as a path segment (F-C13e, "a.b" next to "a/b"). *)
-From Coq Require Import List ZArith NArith Bool Permutation.
-From Verif Require Import Lib.UrlTree Lib.UrlTreeProofs C13.Model C13.Proofs.
+From Coq Require Import List ZArith NArith Bool Permutation Lia.
+From Verif Require Import Lib.UrlTree Lib.UrlTreeProofs C13.Model C13.Proofs C13.Large.
 Import ListNotations.
 Open Scope Z_scope.
 
@@ -585,5 +585,121 @@ Example C13_sample_specificity :
       spec_leb (steps_of (pat (mk s_GET u_h_a_star 2 2)))
                (steps_of (pat (mk s_GET u_h_star 1 1))) = false
   | _, _, _ => False
+  end.
+Proof. vm_compute. repeat split; reflexivity. Qed.
+
+(* ------------------------------------------------------------------ *)
+(* Big configurations: any number of siblings below one node *)
+
+(* [build_a a] (Large.v): BuildEndpointPolicyTree on a trie with the variant
+   switch [a]: None = the code (no assumed path parameters: [build_a None] =
+   [build]), Some thr = assumed path parameters switched on with split
+   threshold thr (literal path siblings beyond thr are merged into one
+   "{_param_N}" node).  [literalb p] = every step of p is a literal.
+   The statement, for every declaration list (of any length), every order:
+   (i)   soundness as in C13_sound;
+   (ii)  a request spelled as a literally declared URL selects that URL's own
+         node, and that node carries a value;
+   (iii) the remedies / diagnoses it is given are declared for its method on
+         that very URL (the same parts) or on a parameter / wildcard pattern —
+         never on another literal URL, whatever the number of siblings. *)
+Definition C13_large_statement (a : option nat) : Prop :=
+  forall ds pt, build_a a ds = Some pt -> kind_consistentb ds = true ->
+    (forall m url,
+       (forall r, In r (endpoint_remedies pt m url) ->
+          exists d, In d ds /\ d_method d = m /\ In r (d_rem d) /\
+                    r_enabled r = true /\ matches_kind (pat d) (split_url url) = true) /\
+       (forall g, In g (endpoint_diagnoses pt m url) ->
+          exists d, In d ds /\ d_method d = m /\ In g (d_diag d) /\
+                    g_enabled g = true /\ matches_kind (pat d) (split_url url) = true)) /\
+    (forall d, In d ds -> literalb (pat d) = true ->
+       l_key (plookup pt (d_url d)) = dkey d /\ l_val (plookup pt (d_url d)) <> None) /\
+    (forall d m, In d ds -> literalb (pat d) = true ->
+       (forall r, In r (endpoint_remedies pt m (d_url d)) ->
+          exists d', In d' ds /\ d_method d' = m /\ In r (d_rem d') /\
+            (literalb (pat d') = true -> split_url (d_url d') = split_url (d_url d))) /\
+       (forall g, In g (endpoint_diagnoses pt m (d_url d)) ->
+          exists d', In d' ds /\ d_method d' = m /\ In g (d_diag d') /\
+            (literalb (pat d') = true -> split_url (d_url d') = split_url (d_url d)))).
+
+(* the policy tree as coded: no bound on the number of declarations or of
+   siblings appears anywhere *)
+Theorem C13_large_configurations : C13_large_statement None.
+Proof.
+  intros ds pt HB HK. rewrite build_a_none in HB.
+  pose proof (C13_sound ds HK) as HS.
+  split; [|split].
+  - intros m url. exact (HS pt m url HB).
+  - intros d Hd HL.
+    destruct (C13_most_specific ds pt (d_url d) HB HK) as (_ & _ & Hc).
+    apply (Hc d Hd).
+    + apply literal_wild_free. exact HL.
+    + apply literal_matches_self. exact HL.
+    + apply literal_unshadowed. exact HL.
+  - intros d m Hd HL. destruct (HS pt m (d_url d) HB) as [HR HD].
+    split; intros x Hx.
+    + destruct (HR x Hx) as (d' & H1 & H2 & H3 & _ & H5).
+      exists d'. repeat split; auto. intro HL'.
+      exact (literal_same_parts (split_url (d_url d')) (split_url (d_url d)) HL' H5).
+    + destruct (HD x Hx) as (d' & H1 & H2 & H3 & _ & H5).
+      exists d'. repeat split; auto. intro HL'.
+      exact (literal_same_parts (split_url (d_url d')) (split_url (d_url d)) HL' H5).
+Qed.
+Print Assumptions C13_large_configurations.
+
+(* 51 literal siblings h/r00 .. h/r50, sibling i with remedy i+1 *)
+Definition u_sib (i : nat) : str :=
+  [104; 47; 114; 48 + Z.of_nat (i / 10); 48 + Z.of_nat (i mod 10)].
+Definition sib (i : nat) : decl := mk s_GET (u_sib i) (Z.of_nat i + 1) 0.
+Definition siblings (n : nat) : list decl := map sib (seq 0 n).
+Definition u_h_undeclared : str := [104; 47; 122; 122].          (* h/zz *)
+
+(* the hypotheses are satisfiable on a big configuration, and the conclusion
+   is what one expects: with 120 siblings the 8th, the 51st and the last are
+   served their own remedy, an undeclared sibling none *)
+Example C13_sample_large :
+  match build (siblings 120) with
+  | Some pt =>
+      kind_consistentb (siblings 120) = true /\
+      forallb (fun d => literalb (pat d)) (siblings 120) = true /\
+      map r_name (endpoint_remedies pt s_GET (u_sib 7)) = [8] /\
+      map r_name (endpoint_remedies pt s_GET (u_sib 50)) = [51] /\
+      map r_name (endpoint_remedies pt s_GET (u_sib 119)) = [120] /\
+      endpoint_remedies pt s_POST (u_sib 7) = [] /\
+      endpoint_remedies pt s_GET u_h_undeclared = [] /\
+      l_norm (plookup pt (u_sib 50)) = u_sib 50
+  | None => False
+  end.
+Proof. vm_compute. repeat split; reflexivity. Qed.
+
+(* variant "assumed path parameters on, threshold 50" (seeded change C13-9):
+   declaring the 51st sibling merges the 50 earlier ones into "{_param_1}";
+   the request h/r07 no longer selects its own node *)
+Theorem C13_large_assumed_params_refuted : ~ C13_large_statement (Some 50%nat).
+Proof.
+  intro H.
+  destruct (build_a (Some 50%nat) (siblings 51)) as [pt|] eqn:HB;
+    [|vm_compute in HB; discriminate].
+  assert (HK : kind_consistentb (siblings 51) = true) by (vm_compute; reflexivity).
+  destruct (H (siblings 51) pt HB HK) as (_ & Hown & _).
+  assert (Hin : In (sib 7) (siblings 51)).
+  { unfold siblings. apply in_map. apply in_seq. lia. }
+  assert (HL : literalb (pat (sib 7)) = true) by (vm_compute; reflexivity).
+  destruct (Hown (sib 7) Hin HL) as [Hk _].
+  vm_compute in HB. inversion HB; subst pt. vm_compute in Hk. discriminate Hk.
+Qed.
+Print Assumptions C13_large_assumed_params_refuted.
+
+(* what the variant does on that witness: h/r07 and the undeclared h/zz are
+   served the remedy of the sibling declared 51st, under a normalised URL that
+   no endpoint declares; with 50 siblings it behaves as the code *)
+Example C13_large_assumed_params_leak :
+  match build_a (Some 50%nat) (siblings 51), build_a (Some 50%nat) (siblings 50) with
+  | Some pt, Some pt50 =>
+      map r_name (endpoint_remedies pt s_GET (u_sib 7)) = [51] /\
+      map r_name (endpoint_remedies pt s_GET u_h_undeclared) = [51] /\
+      l_norm (plookup pt (u_sib 7)) = [104; 47; 123; 95; 112; 97; 114; 97; 109; 95; 49; 125] /\
+      build (siblings 50) = Some pt50
+  | _, _ => False
   end.
 Proof. vm_compute. repeat split; reflexivity. Qed.
